@@ -49,7 +49,7 @@ func c13Doc(t *rapid.T, tag string) map[string]any {
 // c13Query draws one query over a document built with the given tag.
 func c13Query(t *rapid.T, tag string, site int, readOnlyOnly bool) (q string, orderOpen bool, kind string, reader bool) {
 	kinds := []string{"filter", "subquery", "exists", "join", "pjoin", "group", "async", "order", "cte", "phash", "reader", "in_sub", "spinasync", "derived",
-		"range_reader", "range_from", "distinct_reader", "cte_async", "derived_async", "sub_async", "range_col", "pjoin_fail", "var_corunner", "join_using", "union", "distinct_wide", "distinct_wide_reader", "cte_join_using"}
+		"range_reader", "range_from", "distinct_reader", "cte_async", "derived_async", "sub_async", "range_col", "pjoin_fail", "var_corunner", "join_using", "union", "distinct_wide", "distinct_wide_reader", "cte_join_using", "cte_self_pjoin", "like", "like", "cte_direct_slow"}
 	kind = rapid.SampledFrom(kinds).Draw(t, "qkind")
 	k := rapid.IntRange(0, 4).Draw(t, "k") * 10
 	T, U, id, a, s, n, v, b := "t"+tag, "u"+tag, "id"+tag, "a"+tag, "s"+tag, "n"+tag, "v"+tag, "b"+tag
@@ -87,6 +87,22 @@ func c13Query(t *rapid.T, tag string, site int, readOnlyOnly bool) (q string, or
 		return fmt.Sprintf("WITH c%s AS (SELECT %s FROM %s WHERE %s >= %d) SELECT * FROM c%s", tag, id, T, a, k, tag), false, kind, false
 	case "derived":
 		return fmt.Sprintf("SELECT * FROM (SELECT %s, %s FROM %s WHERE %s >= %d) d", id, a, T, a, k), false, kind, false
+	case "cte_self_pjoin":
+		// both sides of a PARALLEL join read the same lazily evaluated CTE
+		jt := rapid.SampledFrom([]string{"PARALLEL JOIN", "PARALLEL LEFT JOIN", "PARALLEL HASH_JOIN", "JOIN"}).Draw(t, "sjt")
+		op := "="
+		if !strings.Contains(jt, "HASH") {
+			op = rapid.SampledFrom([]string{"=", "<", ">="}).Draw(t, "sjop")
+		}
+		return fmt.Sprintf("WITH c%s AS (SELECT %s, %s FROM %s WHERE %s >= %d) SELECT * FROM c%s x %s c%s y ON x.%s %s y.%s", tag, id, a, T, a, k, tag, jt, tag, id, op, id), true, kind, false
+	case "like":
+		// every query brings its own pattern
+		pat := rapid.SampledFrom([]string{"x%", "%y", "y", "%", "x", "_", "%x%"}).Draw(t, "likepat")
+		neg := rapid.SampledFrom([]string{"", "NOT "}).Draw(t, "likeneg")
+		return fmt.Sprintf("SELECT %s, %s FROM %s WHERE %s %sLIKE '%s'", id, s, T, s, neg, pat), false, kind, false
+	case "cte_direct_slow":
+		// a selector that walks through a CTE whose body is slow: evaluated while other clients parse new selectors
+		return fmt.Sprintf("WITH c%s AS (SELECT %s, %s, ASYNC.fx(%d, %s) AS y FROM %s) SELECT %s FROM `c%s.%s`", tag, id, n, site, a, T, v, tag, n), false, kind, false
 	case "join_using":
 		// the builder rewrites USING into an ON expression: two queries with the same text must not share that tree
 		jt := rapid.SampledFrom([]string{"JOIN", "LEFT JOIN", "PARALLEL JOIN", "HASH_JOIN"}).Draw(t, "ujt")
